@@ -35,7 +35,7 @@ RULE = (
 ASSUMPTIONS = ["exception classes: ValueError, KeyError, ZeroDivisionError, TypeError, RuntimeError, AttributeError, OSError, custom Exception, a foreign EvaluationError, CacheGetFailure, KeyNotFoundError"]
 FLOORS = {"fault_runs": (1500, 40000), "faults_fired": (1200, 30000), "boundary_failures_checked": (1500, 30000),
           "chains_reaching_injected": (700, 15000), "stores_verified": (1500, 40000), "post_failure_steps_compared": (1500, 40000),
-          "missing_then_supplied": (150, 3000), "dangling_reference_cases": (1200, 25000), "dangling_missing_key_reports": (150, 3000)}
+          "user_subclass_failure_steps": (36, 36), "missing_then_supplied": (150, 3000), "dangling_reference_cases": (1200, 25000), "dangling_missing_key_reports": (150, 3000)}
 COVER = {"fault_kinds": ["body", "callback", "effect", "pred", "bindfn", "step", "factory", "dompred", "fn"],
          "fault_classes": ["ValueError", "KeyError", "ZeroDivisionError", "InjectedFault", "EvaluationError", "CacheGetFailure", "TypeError", "RuntimeError", "AttributeError", "OSError"]}
 SHARDS_QUICK = 4
@@ -397,6 +397,7 @@ def run(ctx):
         missing_then_supplied(ctx, p, rng)
     if ctx.shard == 0:
         known_finding_reproducer(ctx)
+        user_subclass_failures(ctx)
     n = ctx.n(400, 8000)
     for i in range(n):
         r = case_rng(ctx, i)
@@ -409,6 +410,80 @@ def run(ctx):
             continue
         for plan in plans_for(ctx, r, pids, exhaustive=False):
             run_plan(ctx, program, hist, plan, pids, "random")
+
+
+def user_subclass_failures(ctx):
+    """Failures inside user-defined Evaluatable hierarchies (a subclass of a user subclass overriding evaluate, a
+    subclass of Option): the boundary error is an EvaluationError whose source is the object evaluate() was called on,
+    and the chain passes through the failing object down to the original exception."""
+    from labrea import Option, dataset
+    from labrea.types import Evaluatable
+
+    class Boom(Exception):
+        pass
+
+    class Base(Evaluatable):
+        def evaluate(self, options):
+            return options["A"]
+
+        def validate(self, options):
+            pass
+
+        def keys(self, options):
+            return set()
+
+        def explain(self, options=None):
+            return set()
+
+        def __repr__(self):
+            return type(self).__name__ + "()"
+
+    class Leaf(Base):
+        def evaluate(self, options):
+            if options.get("A") == "bad":
+                raise Boom("user failure in a derived evaluate")
+            return ("leaf", options.get("A"))
+
+    class Deeper(Leaf):
+        def evaluate(self, options):
+            if options.get("A") == "bad":
+                raise Boom("user failure two levels down")
+            return ("deeper", options.get("A"))
+
+    class Checked(Option):
+        def evaluate(self, options):
+            v = options.get(self.key)
+            if v == "bad":
+                raise Boom("user failure in an Option subclass")
+            return v
+
+    for name, make in (("Leaf", Leaf), ("Deeper", Deeper), ("Checked", lambda: Checked("A"))):
+        failing = make()
+        graphs = {"direct": failing, "dataset argument": dataset.nocache(lambda x=failing: ("d", x)), "applied": failing >> (lambda v: ("f", v))}
+        for how, g in graphs.items():
+            for o in ({"A": 1}, {"A": "bad"}, {"A": 2}, {"A": "bad"}):
+                ctx.evaluations += 1
+                ctx.count("user_subclass_failure_steps")
+                try:
+                    g.evaluate(dict(o))
+                    err = None
+                except BaseException as e:  # noqa: BLE001
+                    err = e
+                W = {"family": "user-subclass-failures", "class": name, "how": how, "options": o}
+                if (err is not None) != (o["A"] == "bad"):
+                    ctx.violation("failure-swallowed-or-invented", f"{name} ({how}) on {o}: {'raised ' + type(err).__name__ if err else 'no failure'}", W)
+                    return
+                if err is None:
+                    continue
+                ch = chain(err)
+                if not isinstance(err, EvaluationError) or err.source is not g:
+                    ctx.violation("non-evaluationerror-escaped" if not isinstance(err, EvaluationError) else "wrong-source",
+                                  f"{name} ({how}): evaluate() raised {type(err).__name__} with source {getattr(err, 'source', None)!r}", W)
+                    return
+                if not isinstance(ch[-1], Boom) or not any(isinstance(x, EvaluationError) and x.source is failing for x in ch):
+                    ctx.violation("cause-chain-broken", f"{name} ({how}): chain {[type(x).__name__ + ':' + repr(getattr(x, 'source', ''))[:30] for x in ch]} does not pass through the failing object down to the original exception", W)
+                    return
+                ctx.nontrivial(spec_hash(["user-subclass-failure", name, how]))
 
 
 KF_PROGRAM = {"datasets": {"1": {"args": [["a", {"k": "opt", "key": "A", "dk": "const", "dv": 0}]], "cache": "nocache", "dispatch": "D",
@@ -428,6 +503,9 @@ def known_finding_reproducer(ctx):
 
 def replay(ctx, rep):
     w = rep["witness"]
+    if w.get("family") == "user-subclass-failures":
+        user_subclass_failures(ctx)
+        return
     if w.get("source") == "dangling":
         dangling_cases(ctx, w["program"], w["history"])
         return
